@@ -1,7 +1,7 @@
 (** Executable instance of the collider state machine for the C14 correspondence check:
     data is [unit] (the check compares layout tags and raised exceptions; numerical
     observables are compared implementation-vs-fresh-object by the harness). *)
-From Coq Require Import List Bool.
+From Coq Require Import List Bool Arith.
 From D3 Require Import Base.Vec Model.Colliders.
 Import ListNotations.
 
@@ -51,3 +51,27 @@ Fixpoint trace (cfg : config) (c : ucoll) (h : list uop) : list (bool * list nat
 
 Definition run_tags (cfg : config) (s : uspec) (h : list uop) : list nat * list (bool * list nat) :=
   let c := construct unit unit uK s up in (map ln (tags unit unit c), trace cfg c h).
+
+(** A second instance whose kernels let the data flow through (used by the non-vacuity
+    examples of Props/C14.v): coordinates are [nat], a "support point" is the translation
+    of the pose the kernel was handed, box vertices are [translation; size]. *)
+Definition nv0 : V3 nat := V 0 0 0.
+Definition nK : kern nat unit :=
+  Kern nat unit
+    (fun _ c _ => c) (fun _ p _ _ => trans p) (fun _ p _ _ => trans p) (fun _ p _ _ => trans p)
+    (fun _ p _ => trans p) (fun _ c _ n => V (vx c) (vy c) (vz n)) (fun _ c ax _ => V (vx c) (vy c) (vz (fst ax)))
+    (fun p size => [trans p; size]) (fun vs _ => hd nv0 vs) (fun vs => hd nv0 vs)
+    (fun vs => (hd nv0 vs, hd nv0 (tl vs)))
+    (fun n => (n, n)) (fun d => d)
+    (fun _ i vs _ => Nat.modulo (Datatypes.S i) (Datatypes.S (length vs))) (fun _ d => d)
+    (fun p vs i => V (vx (trans p)) (vy (trans p)) (vx (nth i vs nv0)))
+    (fun p _ => trans p) (fun p _ => (trans p, trans p))
+    (fun c _ => c) (fun c _ => (c, c)) (fun c => P (M c c c) c)
+    (fun p _ _ => trans p) (fun p _ _ => (trans p, trans p))
+    (fun p _ => trans p) (fun p _ _ => (trans p, trans p))
+    (fun p _ => trans p) (fun p _ => trans p) (fun p _ _ => (trans p, trans p))
+    (fun p _ => trans p) (fun p _ => (trans p, trans p))
+    (fun c _ _ => c) (fun c _ n => (c, n)) (fun c n _ => P (M c n c) c)
+    (fun c ax _ => V (vx c) (vy c) (vz (fst ax))) (fun c ax _ => (c, fst ax)) (fun c ax => P (M c (fst ax) (snd ax)) c)
+    (fun s m _ => V (vx s + m) (vy s) (vz s)) (fun b m => (fst b, V (vx (snd b) + m) (vy (snd b)) (vz (snd b)))).
+Definition npose (a b c : nat) : Pose nat := P (M (V 1 0 0) (V 0 1 0) (V 0 0 1)) (V a b c).
